@@ -110,6 +110,11 @@ pub enum PosKind {
     Bundled,
 }
 
+thread_local! {
+    /// see `add_mint_keyed`: extra Token-2022 mint extension initialised before / after the transfer-fee config
+    pub static MINT_EXTRA: std::cell::Cell<u8> = std::cell::Cell::new(0);
+}
+
 #[derive(Clone, Debug)]
 pub struct PosInfo {
     pub name: String,
@@ -267,12 +272,30 @@ impl World {
             TokProg::T22 => {
                 use spl_token_2022::extension::ExtensionType;
                 let t22 = spl_token_2022::ID;
-                let exts: Vec<ExtensionType> = if fee_bps.is_some() { vec![ExtensionType::TransferFeeConfig] } else { vec![] };
+                // MINT_EXTRA: further extensions initialised BEFORE (1, 3) or AFTER (2, 4) the transfer-fee config - Token-2022
+                // stores TLV entries in initialisation order: 1 metadata pointer, 2 interest-bearing, 3 / 4 transfer hook
+                // without a program (needs a token badge)
+                let extra = MINT_EXTRA.with(|c| c.get());
+                let extra_ty = match extra { 1 => Some(ExtensionType::MetadataPointer), 2 => Some(ExtensionType::InterestBearingConfig), 3 | 4 => Some(ExtensionType::TransferHook), _ => None };
+                let mut exts: Vec<ExtensionType> = if fee_bps.is_some() { vec![ExtensionType::TransferFeeConfig] } else { vec![] };
+                exts.extend(extra_ty);
                 let space = ExtensionType::try_calculate_account_len::<spl_token_2022::state::Mint>(&exts).unwrap();
                 self.bank.accts.insert(key, Acct { lamports: svm::rent_min(space), data: vec![0u8; space], owner: t22, executable: false });
+                let init_extra = |w: &mut World| match extra {
+                    1 => w.must("t22 init metadata pointer", &spl_token_2022::extension::metadata_pointer::instruction::initialize(&t22, &key, Some(auth), None).unwrap()),
+                    2 => w.must("t22 init interest bearing", &spl_token_2022::extension::interest_bearing_mint::instruction::initialize(&t22, &key, Some(auth), 5).unwrap()),
+                    3 | 4 => w.must("t22 init transfer hook", &spl_token_2022::extension::transfer_hook::instruction::initialize(&t22, &key, Some(auth), None).unwrap()),
+                    _ => {}
+                };
+                if extra == 1 || extra == 3 {
+                    init_extra(self);
+                }
                 if let Some((bps, max)) = fee_bps {
                     let ix = spl_token_2022::extension::transfer_fee::instruction::initialize_transfer_fee_config(&t22, &key, Some(&auth), Some(&auth), bps, max).unwrap();
                     self.must("t22 init transfer fee", &ix);
+                }
+                if extra == 2 || extra == 4 {
+                    init_extra(self);
                 }
                 let ix = spl_token_2022::instruction::initialize_mint2(&t22, &key, &auth, None, 6).unwrap();
                 self.must("t22 init mint2", &ix);
@@ -313,8 +336,11 @@ impl World {
                 use spl_token_2022::extension::ExtensionType;
                 let t22 = spl_token_2022::ID;
                 let mint_data = self.bank.accts[&mi.key].data.clone();
-                let has_fee = project::t22_extension_types(&mint_data).contains(&1);
-                let exts: Vec<ExtensionType> = if has_fee { vec![ExtensionType::TransferFeeAmount] } else { vec![] };
+                let mint_exts = project::t22_extension_types(&mint_data);
+                let mut exts: Vec<ExtensionType> = if mint_exts.contains(&1) { vec![ExtensionType::TransferFeeAmount] } else { vec![] };
+                if mint_exts.contains(&14) {
+                    exts.push(ExtensionType::TransferHookAccount);
+                }
                 let space = ExtensionType::try_calculate_account_len::<spl_token_2022::state::Account>(&exts).unwrap();
                 self.bank.accts.insert(k, Acct { lamports: svm::rent_min(space), data: vec![0u8; space], owner: t22, executable: false });
                 let ix = spl_token_2022::instruction::initialize_account3(&t22, &k, &mi.key, &owner).unwrap();
